@@ -1,14 +1,20 @@
 #!/bin/sh
-# seed_matrix.sh: run, for every kept seed, the check of the property it breaks; one line per seed
+# seed_matrix.sh [seed ...]: run, for every kept seed (or the named ones), the check of the property it
+# breaks (meta.json `check_with`, default: the seed's own property); one line per seed.
+# Applies each patch to /repo, runs the check, undoes it (tools/try_seed.sh). About 1 minute per seed.
 cd /verif
-for d in /verif/seeded/*/; do
-  seed=$(basename $d); id=$(python3 -c "import json,sys; m=json.load(open('$d/meta.json')); print(m.get('check_with') or '$(basename $d)'.split('-')[0])")
+seeds="$@"
+[ -z "$seeds" ] && seeds=$(ls /verif/seeded | grep -E '^C[0-9]+-[0-9]+$')
+for seed in $seeds; do
+  d=/verif/seeded/$seed
+  id=$(python3 -c "import json; m=json.load(open('$d/meta.json')); print(m.get('check_with') or '$seed'.split('-')[0])")
+  rm -f /verif/replays/$id-*.json
   r=$(tools/try_seed.sh $d/patch.diff $id 2>&1 | tail -1)
   why=$(python3 - <<PY
 import json,glob
 out=[]
 for p in sorted(glob.glob('/verif/replays/$id-*.json')):
-    j=json.load(open(p)); out.append("%s: %s" % (j.get('kind'), (j.get('why') or json.dumps(j.get('problems'))[:200])[:200]))
+    j=json.load(open(p)); out.append("%s: %s" % (j.get('kind'), (j.get('why') or json.dumps(j.get('problems'))[:300])[:300]))
 print(" | ".join(out))
 PY
 )
